@@ -19,6 +19,7 @@ import (
 //	sstore                                 K X
 //	return                                 N (size of the returned zero bytes)
 //	stop | revert | invalid | burn (a loop that runs out of gas)
+//	stopifvalue                            STOP when CALLVALUE != 0, fall through otherwise
 type Instr struct {
 	Op   string  `json:"op"`
 	T    string  `json:"t,omitempty"`
@@ -67,6 +68,13 @@ type Case struct {
 	Nonce   uint64  `json:"nonce"`
 	Data    string  `json:"data,omitempty"` // hex; for a creation the init code is Init
 	Init    []Instr `json:"init,omitempty"`
+	// block shape: the messages applied before this one on the SAME StateDB, with only Finalize(true)
+	// in between (as Process / the worker do inside one block; a message refused with a consensus error
+	// is rolled back to the snapshot taken in front of it, as worker.commitTransaction does).  Only the
+	// message fields (and Note, ALDrop, RelNonce) of these entries are used; environment and accounts
+	// are those of this case.
+	Before   []*Case `json:"before,omitempty"`
+	RelNonce bool    `json:"relnonce,omitempty"` // Nonce is an offset to the sender's nonce in the state when the message is applied
 }
 
 func bi(s string) *big.Int {
@@ -213,6 +221,15 @@ func assemble(code []Instr) []byte {
 			a.op(vm.RETURN)
 		case "stop":
 			a.op(vm.STOP)
+		case "stopifvalue":
+			// CALLVALUE ISZERO PUSH2 dest JUMPI STOP JUMPDEST
+			dest := len(a.b) + 7
+			a.op(vm.CALLVALUE)
+			a.op(vm.ISZERO)
+			a.b = append(a.b, byte(vm.PUSH2), byte(dest>>8), byte(dest))
+			a.op(vm.JUMPI)
+			a.op(vm.STOP)
+			a.op(vm.JUMPDEST)
 		case "revert":
 			a.pushN(0)
 			a.pushN(0)
